@@ -236,6 +236,11 @@ func (h *hist) nextTx(t *rapid.T) (txSpec, bool) {
 			}
 		}
 	}
+	if (len(w.ctxs) > 0 || len(w.feeds) > 0) && rapid.IntRange(0, 5).Draw(t, "ctxlife") == 0 {
+		if tx, ok := h.ctxLifeTx(t); ok {
+			return tx, true
+		}
+	}
 	if rapid.IntRange(0, 9).Draw(t, "contention") == 0 {
 		// a poor consumer opens several contexts in one transaction against a provider it can pay only once or
 		// twice: their first batches fall due in the same end block and not all of them can be charged
@@ -535,10 +540,19 @@ func (h *hist) nextTx(t *rapid.T) (txSpec, bool) {
 			if rapid.IntRange(0, 3).Draw(t, "dear") == 0 {
 				price = rapid.SampledFrom([]int{300, 400, 700}).Draw(t, "dearprice") // a poor consumer can pay one such batch, not two
 			}
-			pricing := fmt.Sprintf(`{"price":"%dstake"}`, price)
-			if rapid.Bool().Draw(t, "promo") {
-				pricing = fmt.Sprintf(`{"price":"%dstake","promotions_by_volume":[{"volume":2,"discount":"0.5"}]}`, price)
+			pricing := fmt.Sprintf(`{"price":"%dstake"`, price)
+			if rapid.IntRange(0, 2).Draw(t, "timepromo") == 0 {
+				// a promotion by time that is in force now, about to start, or about to end (blocks advance 1-8 s, sometimes minutes)
+				now := ctx.BlockTime().Unix()
+				from := now + int64(rapid.SampledFrom([]int{-3600, -3600, -10, 12, 40}).Draw(t, "promofrom"))
+				to := from + int64(rapid.SampledFrom([]int{30, 90, 7200, 7200}).Draw(t, "promolen"))
+				pricing += fmt.Sprintf(`,"promotions_by_time":[{"start_time":"%s","end_time":"%s","discount":"%s"}]`,
+					time.Unix(from, 0).UTC().Format(time.RFC3339), time.Unix(to, 0).UTC().Format(time.RFC3339), rapid.SampledFrom([]string{"0.5", "0.8", "0.25"}).Draw(t, "promodisc"))
 			}
+			if rapid.Bool().Draw(t, "promo") {
+				pricing += `,"promotions_by_volume":[{"volume":2,"discount":"0.5"}]`
+			}
+			pricing += "}"
 			return txSpec{u, h.enc(&servicetypes.MsgBindService{ServiceName: svc, Provider: me, Deposit: coins("stake", 25000+int64(price)*1000), Pricing: pricing, QoS: uint64(rapid.IntRange(1, 3).Draw(t, "qos")), Options: "{}", Owner: me})}, true
 		case a <= 4:
 			b := pick(t, "binding", w.bindings)
@@ -550,7 +564,7 @@ func (h *hist) nextTx(t *rapid.T) (txSpec, bool) {
 			}
 			sort.Strings(provs)
 			rep := rapid.Bool().Draw(t, "repeated")
-			msg := &servicetypes.MsgCallService{ServiceName: b.Svc, Providers: provs, Consumer: me, Input: hInput, ServiceFeeCap: coins("stake", int64(rapid.SampledFrom([]int{50, 50, 1000}).Draw(t, "cap"))), Timeout: int64(rapid.IntRange(1, 6).Draw(t, "timeout"))}
+			msg := &servicetypes.MsgCallService{ServiceName: b.Svc, Providers: provs, Consumer: me, Input: hInput, ServiceFeeCap: coins("stake", int64(rapid.SampledFrom([]int{50, 50, 1000}).Draw(t, "cap"))), Timeout: int64(rapid.SampledFrom([]int{1, 2, 3, 4, 5, 6, 6, 9, 12}).Draw(t, "timeout"))}
 			if rep {
 				msg.Repeated, msg.RepeatedFrequency, msg.RepeatedTotal = true, uint64(msg.Timeout)+uint64(rapid.IntRange(0, 4).Draw(t, "freq")), int64(rapid.IntRange(1, 5).Draw(t, "total"))
 			}
@@ -857,6 +871,69 @@ func (h *hist) dueTx(t *rapid.T) (txSpec, bool) {
 		return txSpec{}, false
 	}
 	return pick(t, "duecand", cands), true
+}
+
+// ctxLifeTx steers repeated request contexts (user-owned ones and those of feeds) through the life cycle
+// "current batch fully answered -> paused -> started again before that batch's expiry height": it answers the
+// outstanding requests of a context that has few of them, pauses a running context whose batch is already
+// complete, and restarts a paused context whose last batch has not reached its expiry entry yet.
+func (h *hist) ctxLifeTx(t *rapid.T) (txSpec, bool) {
+	ctx := h.n.Ctx()
+	k := h.n.K
+	feedOf := map[string]hFeed{}
+	for _, f := range h.w.feeds {
+		if fd, ok := k.Oracle.GetFeed(ctx, f.Name); ok {
+			feedOf[strings.ToUpper(fd.RequestContextID)] = f
+		}
+	}
+	var restart, pause, answer []txSpec
+	k.Service.IterateRequestContexts(ctx, func(id tmbytes.HexBytes, rc servicetypes.RequestContext) bool {
+		if !rc.Repeated || rc.State == servicetypes.COMPLETED {
+			return false
+		}
+		c := userIndex(h.n, rc.Consumer)
+		f, isFeed := feedOf[id.String()]
+		if (rc.ModuleName == "" && c < 0) || (rc.ModuleName != "" && !isFeed) {
+			return false
+		}
+		pending := k.Service.HasRequestBatchExpiration(ctx, id) // the last batch still has its expiry entry ahead
+		switch {
+		case rc.State == servicetypes.PAUSED && rc.BatchState == servicetypes.BATCHCOMPLETED && pending:
+			if isFeed {
+				restart = append(restart, txSpec{f.Creator, h.enc(&oracletypes.MsgStartFeed{FeedName: f.Name, Creator: h.addr(f.Creator)})})
+			} else {
+				restart = append(restart, txSpec{c, h.enc(&servicetypes.MsgStartRequestContext{RequestContextId: id.String(), Consumer: rc.Consumer})})
+			}
+		case rc.State == servicetypes.RUNNING && rc.BatchState == servicetypes.BATCHCOMPLETED && pending:
+			if isFeed {
+				pause = append(pause, txSpec{f.Creator, h.enc(&oracletypes.MsgPauseFeed{FeedName: f.Name, Creator: h.addr(f.Creator)})})
+			} else {
+				pause = append(pause, txSpec{c, h.enc(&servicetypes.MsgPauseRequestContext{RequestContextId: id.String(), Consumer: rc.Consumer})})
+			}
+		case rc.State == servicetypes.RUNNING && rc.BatchState == servicetypes.BATCHRUNNING:
+			var out []txSpec
+			it := k.Service.RequestsIteratorByReqCtx(ctx, id, rc.BatchCounter)
+			for ; it.Valid(); it.Next() {
+				rid := tmbytes.HexBytes(it.Key()[1:])
+				if r, ok := k.Service.GetRequest(ctx, rid); ok && k.Service.IsRequestActive(ctx, rid) {
+					if pu := userIndex(h.n, r.Provider); pu >= 0 {
+						out = append(out, txSpec{pu, h.enc(&servicetypes.MsgRespondService{RequestId: rid.String(), Provider: r.Provider, Result: hResult, Output: `{"header":{},"body":{"last":"7.50"}}`})})
+					}
+				}
+			}
+			it.Close()
+			if len(out) > 0 && len(out) <= 2 {
+				answer = append(answer, out[0])
+			}
+		}
+		return false
+	})
+	for _, cands := range [][]txSpec{restart, pause, answer} {
+		if len(cands) > 0 && rapid.IntRange(0, 3).Draw(t, "lifestage") != 0 {
+			return pick(t, "lifecand", cands), true
+		}
+	}
+	return txSpec{}, false
 }
 
 // govTx draws a governance transaction: a proposal that changes one module's parameters to another valid
